@@ -1379,7 +1379,10 @@ def m_map_or(I, st, fr, t, args, name):
         if I.call_closure(s2, callee, cargs, cont):
             return False      # frame pushed; state continues (not consumed)
         cv = I.resolve(s2, callee)
-        rv = Sym(f"{cv.name()}({','.join(I.describe(s2, a) for a in cargs)})", None, ('call', cv.name(), tuple(I.xof(s2, a) for a in cargs)))
+        if isinstance(cv, FnItem):
+            rv = I.extern_value(s2, cv.path, cargs, None, line=t['line'], fn=f2.body.path)      # a designated effect stays one when passed as a fn value
+        else:
+            rv = Sym(f"{cv.name()}({','.join(I.describe(s2, a) for a in cargs)})", None, ('call', cv.name(), tuple(I.xof(s2, a) for a in cargs)))
         return I.ret(s2, f2, t, wrap(rv))
 
     ident = lambda x: x
@@ -1497,6 +1500,34 @@ def m_opt_copied(I, st, fr, t, args, name):
     return args[0]
 
 
+def m_result_ok(I, st, fr, t, args, name):
+    """Result::ok / Result::err: Option of the respective payload"""
+    want = 'Ok' if name.endswith('::ok') else 'Err'
+    v = _opt_variant(I, st, args[0])
+    some = lambda x: Agg('std::option::Option', 'Some', [x])
+    none = Agg('std::option::Option', 'None', [])
+    if isinstance(v, Agg) and v.variant in ('Ok', 'Err'):
+        return some(v.fields[0]) if v.variant == want and v.fields else (none if v.variant != want else some(Const(None)))
+    if isinstance(v, Sym):
+        vs = I.adt_variants(v.ty) if v.ty else None
+        if vs:
+            atom = f"variant({v.n})"
+            st.atom_info.setdefault(atom, {'kind': 'variant', 'of': v.x, 'ty': v.ty})
+            cur = st.cond_map.get(atom)
+            alts = []
+            for (vn, fl, ftys) in vs:
+                if cur is not None and cur != vn:
+                    continue
+                def post(s2, vn=vn, v=v):
+                    r = I.refine_sym(s2, v, vn)
+                    if r is not None:
+                        s2.refine[v.n] = r
+                val = some(Sym(f"{v.n}.0", ftys[0] if ftys else None, ('field', v.x, '0'))) if vn == want else Agg('std::option::Option', 'None', [])
+                alts.append(((atom, vn) if cur is None else None, val, post))
+            return ('alts', alts)
+    return NotImplemented
+
+
 def m_option_take(I, st, fr, t, args, name):
     a = args[0]
     if isinstance(a, Ref):
@@ -1578,6 +1609,7 @@ DEFAULT_MODELS = {
     r'as std::ops::Try>::branch$': m_try_branch,
     r'as std::ops::FromResidual<.*>>::from_residual$': m_from_residual,
     r'^std::option::Option::<T>::take$': m_option_take,
+    r'^std::result::Result::<T, E>::(ok|err)$': m_result_ok,
     r'^std::option::Option::<T>::(map_or|map_or_else|is_some_and|is_none_or|map|and_then|unwrap_or_else|or_else)$': m_map_or,
     r'^std::result::Result::<T, E>::(map_or|map_or_else|is_ok_and|map|and_then|unwrap_or_else|or_else|map_err|inspect_err|inspect)$': m_map_or,
     r'^std::option::Option::<T>::(unwrap|expect)$|^std::result::Result::<T, E>::(unwrap|expect)$': m_unwrap_like,
